@@ -185,6 +185,20 @@ Second generation (class GenR; Gen/CommitmentPolicyGen.v): functions over struct
                variables are the state handed from entry to entry, the entries are visited in the order of the association
                list (the theorems quantify over the state, hence over every list that represents the map); afterwards
                self.f is the retained map.  Any other use of x, or the same inside a conditional / loop, is refused.
+  added for Gen/KvvGen.v (class GenKV: MemoryKVVStore::get_version / put_with_version / put / delete, vls-persist):
+               a small translator of its own over the same syntax trees.  Types `&str` / `String` (the list of the UTF-8
+               bytes), `Vec<u8>` (a list of bytes), `Result<(), Error>` / `Result<Option<u64>, Error>` with the store's Error;
+               the struct is the record of its `data: Mutex<BTreeMap<String, (u64, Vec<u8>)>>` (bmap of Base/Rust.v: the
+               entries in the byte order of the keys; bmap_get / bmap_insert).  `&self` methods are state-passing:
+               `trap (result MemoryKVVStore)`; `let [mut] data = self.data.lock().unwrap();` names the map (the mutex is
+               never poisoned: an operation that can panic, or a call of another method of self, while the guard is alive
+               is refused); `data.get(key)`, `data.insert(key.to_string(), (version, value));`,
+               `if let Some((a, b)) = <entry option> {..}`, `if c {..} [else {..} | else if ..]` and `return e;` in
+               continuation style (what follows a conditional is read in each branch; `return` drops it); `Ok(())` = the
+               store with the map as it is now, `Err(Error::VersionMismatch)` = ErrR "VersionMismatch", refused after a
+               write; `<` `<=` `==` `!=` on u64, `==` / `!=` on Vec<u8> (bytes_eqb), `*x`, `&x`; `self.m(..)?` of a
+               translated reader, `opt.map(|v| <u64 arithmetic in v>).unwrap_or(d)`, `opt.map(|(v, _)| *v)`, a tail call
+               `self.m(..)` of a translated writer, `Vec::new()`; error! / warn! / info! / debug! / trace! have no effect.
   refused    : a Rust binder whose name the generated text uses itself (prof, warn, policy, Val, t<digits>, gen_.., ..), a
                `let` that shadows a variable in scope, `return`, `else`
                branches of statements, `match`, `&mut`, closures anywhere else, struct literals, everything not listed.
@@ -273,6 +287,14 @@ def norm_type(t, known=None):
             return known[t]
         if t == "String":
             return "str"
+        if known.get("Error") == "enum:KvvError":
+            # vls-persist/src/kvv: byte vectors, and results whose error is the store's Error enum
+            if t == "Vec<u8>":
+                return "bytes"
+            if t == "Result<(),Error>":
+                return "kvres:unit"
+            if t == "Result<Option<u64>,Error>":
+                return "kvres:opt_u64"
         m = re.match(r"^Option<\((u32|u64),(u32|u64)\)>$", t)
         if m:
             return "opt:tuple:%s,%s" % (m.group(1), m.group(2))
@@ -901,7 +923,17 @@ class P:
             self.eat("|")
             names = []
             while not self.at("|"):
-                names.append(self.eat(kind="id"))
+                if self.known is not None and self.at("("):
+                    self.eat("(")                   # |(a, b)| ..  a tuple pattern
+                    parts = []
+                    while not self.at(")"):
+                        parts.append(self.eat(kind="id"))
+                        if self.at(","):
+                            self.eat(",")
+                    self.eat(")")
+                    names.append(("tuple_pat", parts))
+                else:
+                    names.append(self.eat(kind="id"))
                 if self.at(","):
                     self.eat(",")
             self.eat("|")
@@ -4190,6 +4222,271 @@ def _generate_node_payments(repo):
 
 
 
+
+class GenKV:
+    """The fragment of vls-persist/src/kvv/memory.rs (MemoryKVVStore: put_with_version, get_version, put, delete).
+    The store is the record of its map (`data: Mutex<BTreeMap<String, (u64, Vec<u8>)>>`; the mutex is never poisoned: no
+    translated function can panic while it holds the guard - an operation that can panic after `lock()` is refused).
+    `&self` methods are state-passing: `trap (result MemoryKVVStore)` - Ok(()) carries the store the call leaves,
+    Err(Error::VersionMismatch) is `ErrR "VersionMismatch"` and is only accepted while the function has written nothing
+    (the store is then the one it was called on).  Statements are read in continuation style: what follows an `if` /
+    `if let` is read in each branch, a `return` drops it."""
+    LOGS = ("error", "warn", "info", "debug", "trace")
+
+    def __init__(self, owner, methods):
+        self.owner, self.methods = owner, methods
+        self.tmp = 0
+
+    def fresh(self):
+        self.tmp += 1
+        return "t%d" % self.tmp
+
+    @staticmethod
+    def coq_type(t):
+        return {"u64": "N", "str": "(list N)", "bytes": "(list N)", "opt_u64": "(option N)", "bool": "bool",
+                "entry": "(N * list N)", "opt:entry": "(option (N * list N))", "bmap": "(bmap (N * list N))"}[t]
+
+    def binder(self, x, env):
+        if not isinstance(x, str) or x in env or x in ("prof", "self", "Val", "Trap", "OkR", "ErrR", "fst", "snd") \
+                or re.match(r"^t\d+$", x) or x.startswith(("gen_", "bmap_", "bytes_", "mk_", "add_", "option_")):
+            raise GenError("binder %r is outside the fragment" % (x,))
+        return x
+
+    def emit(self, binds, k):
+        if binds and self.lockvar:
+            raise GenError("fn %s: an operation that can panic while the guard of the map is alive is outside the fragment" % self.cur["name"])
+        for x, code, kind in reversed(binds):
+            k = "%s %s %s ;;\n%s" % (x, "<-?" if kind == "tryR" else "<-", code, k)
+        return k
+
+    def expr(self, e, env):
+        """-> (binds, text, type)"""
+        k = e[0]
+        if k == "var" and e[1] in env:
+            return [], e[1], env[e[1]]
+        if k == "lit" and e[2] in (None, "u64"):
+            return [], str(e[1]), "u64"
+        if k == "deref" or k == "ref":
+            return self.expr(e[1], env)                  # a shared borrow is read like the value it borrows
+        if k == "bin" and e[1] in ("<", "<=", "==", "!=", "+"):
+            b1, c1, t1 = self.expr(e[2], env)
+            b2, c2, t2 = self.expr(e[3], env)
+            if t1 != t2:
+                raise GenError("%s on %s and %s" % (e[1], t1, t2))
+            if t1 == "u64" and e[1] == "+":
+                x = self.fresh()
+                return b1 + b2 + [(x, "add_p prof %s %s" % (c1, c2), "plain")], x, "u64"
+            if t1 == "u64" and e[1] != "+":
+                op = {"<": "(%s <? %s)", "<=": "(%s <=? %s)", "==": "(%s =? %s)", "!=": "(negb (%s =? %s))"}[e[1]]
+                return b1 + b2, op % (c1, c2), "bool"
+            if t1 == "bytes" and e[1] in ("==", "!="):
+                return b1 + b2, ("(bytes_eqb %s %s)" if e[1] == "==" else "(negb (bytes_eqb %s %s))") % (c1, c2), "bool"
+            raise GenError("%s on %s is outside the fragment" % (e[1], t1))
+        if k == "tuple" and len(e[1]) == 2:
+            b1, c1, t1 = self.expr(e[1][0], env)
+            b2, c2, t2 = self.expr(e[1][1], env)
+            if (t1, t2) != ("u64", "bytes"):
+                raise GenError("a tuple of %s and %s is outside the fragment" % (t1, t2))
+            return b1 + b2, "(%s, %s)" % (c1, c2), "entry"
+        if k == "call" and e[1] == "Vec::new" and not e[2]:
+            return [], "[]", "bytes"
+        if k == "try" and e[1][0] == "mcall" and e[1][1] == ("var", "self") and e[1][2] in self.methods \
+                and self.methods[e[1][2]]["ret"] == "kvres:opt_u64":
+            if self.lockvar:
+                raise GenError("a call of self.%s while the guard of the map is alive (a deadlock) is outside the fragment" % e[1][2])
+            bs, cs = self.args(e[1][2], e[1][3], env)
+            x = self.fresh()
+            return bs + [(x, "gen_%s_%s prof self %s" % (self.owner, e[1][2], " ".join(cs)), "tryR")], x, "opt_u64"
+        if k == "mcall":
+            recv, name, args = e[1], e[2], e[3]
+            if name == "to_string" and not args:
+                b, c, t = self.expr(recv, env)
+                if t != "str":
+                    raise GenError("to_string on a %s" % t)
+                return b, c, "str"
+            if name == "get" and len(args) == 1:
+                b1, c1, t1 = self.expr(recv, env)
+                b2, c2, t2 = self.expr(args[0], env)
+                if (t1, t2) != ("bmap", "str"):
+                    raise GenError("get on a %s with a %s" % (t1, t2))
+                return b1 + b2, "(bmap_get %s %s)" % (c1, c2), "opt:entry"
+            if name == "map" and len(args) == 1 and args[0][0] == "closure" and args[0][1] == [("tuple_pat", ["v", "_"])] \
+                    and args[0][2] == ("deref", ("var", "v")):
+                b, c, t = self.expr(recv, env)            # .map(|(v, _)| *v): the version of an entry
+                if t != "opt:entry":
+                    raise GenError("map(|(v, _)| *v) on a %s" % t)
+                return b, "(option_map fst %s)" % c, "opt_u64"
+            if name == "unwrap_or" and len(args) == 1 and recv[0] == "mcall" and recv[2] == "map" and len(recv[3]) == 1 \
+                    and recv[3][0][0] == "closure" and len(recv[3][0][1]) == 1 and isinstance(recv[3][0][1][0], str):
+                b, c, t = self.expr(recv[1], env)          # opt.map(|v| <u64 in v>).unwrap_or(d)
+                bd, cd, td = self.expr(args[0], env)
+                if t != "opt_u64" or td != "u64" or bd:
+                    raise GenError("map(..).unwrap_or(..) on a %s with a %s" % (t, td))
+                v = self.binder(recv[3][0][1][0], env)
+                env_c = dict(env)
+                env_c[v] = "u64"
+                bb, cb, tb = self.expr(recv[3][0][2], env_c)
+                if tb != "u64":
+                    raise GenError("map closure of type %s" % tb)
+                lock, self.lockvar = self.lockvar, None
+                inner = self.emit(bb, "Val %s" % cb)
+                self.lockvar = lock
+                x = self.fresh()
+                return b + [(x, "(match %s with\n| Some %s => (%s)\n| None => Val %s\nend)" % (c, v, inner, cd), "plain")], x, "u64"
+        raise GenError("expression %r is outside the fragment" % (e,))
+
+    def args(self, name, args, env):
+        m = self.methods[name]
+        if len(args) != len(m["params"]):
+            raise GenError("call of %s with %d arguments" % (name, len(args)))
+        bs, cs = [], []
+        for a, (pn, pt) in zip(args, m["params"]):
+            b, c, t = self.expr(a, env)
+            if t != pt:
+                raise GenError("argument %s of %s: %s given, %s expected" % (pn, name, t, pt))
+            bs += b
+            cs.append(c)
+        return bs, cs
+
+    def store(self):
+        return "(mk_%s %s)" % (self.owner, self.lockvar) if self.lockvar else "self"
+
+    def ret(self, e, env):
+        m = self.cur
+        if m["ret"] == "kvres:unit":
+            if e == ("call", "Ok", [("unit",)]):
+                return "Val (OkR %s)" % self.store()
+            if e == ("call", "Err", [("var", "Error::VersionMismatch")]):
+                if self.dirty:
+                    raise GenError("fn %s: an error after a write is outside the fragment" % m["name"])
+                return 'Val (ErrR "VersionMismatch"%string)'
+            if e[0] == "mcall" and e[1] == ("var", "self") and e[2] in self.methods and self.methods[e[2]]["ret"] == "kvres:unit":
+                if self.lockvar:
+                    raise GenError("a call of self.%s while the guard of the map is alive (a deadlock) is outside the fragment" % e[2])
+                bs, cs = self.args(e[2], e[3], env)
+                return self.emit(bs, "gen_%s_%s prof self %s" % (self.owner, e[2], " ".join(cs)))
+        if m["ret"] == "kvres:opt_u64" and e[0] == "call" and e[1] == "Ok" and len(e[2]) == 1:
+            b, c, t = self.expr(e[2][0], env)
+            if t != "opt_u64":
+                raise GenError("fn %s returns Ok of a %s" % (m["name"], t))
+            return self.emit(b, "Val (OkR %s)" % c)
+        raise GenError("fn %s: the value %r is outside the fragment" % (m["name"], e))
+
+    def stmts(self, ss, tail, env):
+        if not ss:
+            if tail is None:
+                raise GenError("fn %s: a block without a value" % self.cur["name"])
+            return self.ret(tail, env)
+        s, rest = ss[0], ss[1:]
+        if s[0] == "return":
+            return self.ret(s[1], env)
+        if s[0] == "expr" and s[1][0] == "macro" and s[1][1] in self.LOGS:
+            return self.stmts(rest, tail, env)              # logging: no effect on the store or the answer
+        if s[0] == "let" and isinstance(s[1], str) and s[2] is None:
+            x, e = s[1], s[3]
+            if e == ("mcall", ("mcall", ("field", ("var", "self"), "data"), "lock", []), "unwrap", []):
+                if self.lockvar:
+                    raise GenError("a second lock() (a deadlock) is outside the fragment")
+                self.binder(x, env)
+                env2 = dict(env)
+                env2[x] = "bmap"
+                self.lockvar = x
+                return "let %s := (%s_data self) in\n%s" % (x, self.owner, self.stmts(rest, tail, env2))
+            b, c, t = self.expr(e, env)
+            self.binder(x, env)
+            env2 = dict(env)
+            env2[x] = t
+            return self.emit(b, "let %s := %s in\n%s" % (x, c, self.stmts(rest, tail, env2)))
+        if s[0] == "iflet_stmt" and isinstance(s[1], tuple) and s[1][0] == "tuple_pat" and len(s[1][1]) == 2 and s[3][1] is None:
+            b, c, t = self.expr(s[2], env)
+            if t != "opt:entry":
+                raise GenError("if let Some((.., ..)) on a %s" % t)
+            a1, a2 = s[1][1]
+            env2 = dict(env)
+            env2[self.binder(a1, env)] = "u64"
+            env2[self.binder(a2, env2)] = "bytes"
+            save = (self.lockvar, self.dirty)
+            inside = self.stmts(s[3][0] + rest, tail, env2)
+            self.lockvar, self.dirty = save
+            after = self.stmts(rest, tail, env)
+            return self.emit(b, "match %s with\n| Some (%s, %s) => (%s)\n| None => (%s)\nend" % (c, a1, a2, inside, after))
+        if s[0] in ("if_stmt", "ifelse_stmt") and s[2][1] is None and (s[0] == "if_stmt" or s[3][1] is None):
+            b, c, t = self.expr(s[1], env)
+            if t != "bool":
+                raise GenError("if on a %s" % t)
+            save = (self.lockvar, self.dirty)
+            then_t = self.stmts(s[2][0] + rest, tail, env)
+            self.lockvar, self.dirty = save
+            else_t = self.stmts((s[3][0] if s[0] == "ifelse_stmt" else []) + rest, tail, env)
+            return self.emit(b, "if %s\nthen (%s)\nelse (%s)" % (c, then_t, else_t))
+        if s[0] == "expr" and s[1][0] == "mcall" and s[1][1] == ("var", self.lockvar) and s[1][2] == "insert" and len(s[1][3]) == 2:
+            b1, c1, t1 = self.expr(s[1][3][0], env)
+            b2, c2, t2 = self.expr(s[1][3][1], env)
+            if (t1, t2) != ("str", "entry"):
+                raise GenError("insert of a %s under a %s" % (t2, t1))
+            self.dirty = True
+            return self.emit(b1 + b2, "let %s := bmap_insert %s %s %s in\n%s" % (
+                self.lockvar, self.lockvar, c1, c2, self.stmts(rest, tail, env)))
+        raise GenError("statement %r is outside the fragment" % (s,))
+
+    def method(self, m):
+        if m["selfmode"] != "ref" or m["ret"] not in ("kvres:unit", "kvres:opt_u64"):
+            raise GenError("fn %s: only `&self` methods that return Result<(), Error> / Result<Option<u64>, Error>" % m["name"])
+        self.cur, self.lockvar, self.dirty, self.tmp = m, None, False, 0
+        env = {}
+        for x, t in m["params"]:
+            if t not in ("str", "u64", "bytes"):
+                raise GenError("fn %s: parameter of type %s" % (m["name"], t))
+            env[self.binder(x, env)] = t
+        body = self.stmts(m["body"][0], m["body"][1], env)
+        rt = self.owner if m["ret"] == "kvres:unit" else "(option N)"
+        return "Definition gen_%s_%s (prof : profile) (self : %s) %s : trap (result %s) :=\n%s." % (
+            self.owner, m["name"], self.owner, " ".join("(%s : %s)" % (x, self.coq_type(t)) for x, t in m["params"]), rt, indent(body))
+
+
+def generate_kvv(repo):
+    try:
+        return _generate_kvv(repo)
+    except (IndexError, KeyError, ValueError, TypeError, AttributeError, RecursionError, OSError) as e:
+        raise GenError("the source could not be read (%s: %s)" % (type(e).__name__, e))
+
+
+def _generate_kvv(repo):
+    """Gen/KvvGen.v: MemoryKVVStore::get_version, ::put_with_version, ::put, ::delete (vls-persist/src/kvv/memory.rs)."""
+    src = open(os.path.join(repo, "vls-persist", "src", "kvv", "memory.rs")).read()
+    bl = re.sub(r"\s+", "", blank(src))
+    if "pubstructMemoryKVVStore{data:Mutex<BTreeMap<String,(u64,Vec<u8>)>>,signer_id:SignerId,}" not in bl:
+        raise GenError("struct MemoryKVVStore is not { data: Mutex<BTreeMap<String, (u64, Vec<u8>)>>, signer_id: SignerId }")
+    if "usealloc::collections::BTreeMap;" not in bl or "usecrate::kvv::{Error,KVVStore,KVV};" not in bl:
+        raise GenError("memory.rs: BTreeMap is not alloc::collections::BTreeMap, or Error not crate::kvv::Error")
+    kv = re.sub(r"\s+", "", blank(open(os.path.join(repo, "vls-persist", "src", "kvv.rs")).read()))
+    pm = re.sub(r"\s+", "", blank(open(os.path.join(repo, "vls-core", "src", "persist", "mod.rs")).read()))
+    if not re.search(r"uselightning_signer::persist::\{[^}]*\bError\b", kv) or not re.search(r"pubenumError\{[^}]*VersionMismatch,", pm):
+        raise GenError("kvv::Error is not lightning_signer::persist::Error, or that enum has no VersionMismatch")
+    known = {"Error": "enum:KvvError", "Vec": "path", "MemoryKVVStore": "struct:MemoryKVVStore"}
+    plan = ["get_version", "put_with_version", "put", "delete"]
+    methods, texts = {}, {}
+    for n in plan:
+        texts[n] = method_source(src, None, n, header="impl KVVStore for MemoryKVVStore")
+        methods[n] = P(lex(texts[n]), known).fn()
+    g = GenKV("MemoryKVVStore", methods)
+    out = ["(* struct MemoryKVVStore (memory.rs): the map behind the mutex; signer_id is not read by the translated functions *)\n"
+           "Record MemoryKVVStore := mk_MemoryKVVStore {\n  MemoryKVVStore_data : bmap (N * list N)\n}."]
+    for n in plan:
+        out.append("(* MemoryKVVStore::%s (kvv/memory.rs, `impl KVVStore for MemoryKVVStore`)\n%s *)\n%s" % (n, "\n".join(
+            "   " + l for l in texts[n].strip().replace("(*", "( *").replace("*)", "* )").splitlines()), g.method(methods[n])))
+    text = ("(** GENERATED by tools/gen_rustfn.py - do not edit.  Statement-by-statement translation of\n"
+            "      MemoryKVVStore::get_version, ::put_with_version, ::put, ::delete (vls-persist/src/kvv/memory.rs).\n"
+            "    The store is its BTreeMap<String, (u64, Vec<u8>)> (Base/Rust.v bmap: sorted by the byte order of the keys);\n"
+            "    Ok(()) carries the store the call leaves, Err(Error::VersionMismatch) is ErrR \"VersionMismatch\" and leaves\n"
+            "    the store as it was (no translated function writes before it refuses). *)\n"
+            "From Coq Require Import String.\nFrom VLS Require Export Base.Rust.\n\n" + "\n\n".join(out) + "\n")
+    outp = os.path.join(ROOT, "coq", "theories", "Gen", "KvvGen.v")
+    if not os.path.exists(outp) or open(outp).read() != text:
+        open(outp, "w").write(text)
+    return {"translated": ["MemoryKVVStore::%s" % n for n in plan]}
+
+
 def generate_payment_summaries(repo):
     try:
         return _generate_payment_summaries(repo)
@@ -4257,3 +4554,4 @@ if __name__ == "__main__":
     print(generate_onchain(repo))
     print(generate_node_payments(repo))
     print(generate_payment_summaries(repo))
+    print(generate_kvv(repo))
